@@ -946,6 +946,25 @@ def gen_c03(rng, n, tier):
             g.ops.append("q dump")
             g.ops.append(f"q status {f if f.count(':') == 2 else '1356:' + f}-1356:c3:s1-{idx}")
             tags.add("receipt-of-unverifiable-destination:" + typ)
+        if g.hub and r.random() < 0.3:
+            # seeding round 29: a LOCAL appchain is registered under the name a service id of the other BitXHub carries as its chain
+            # segment (c5), with ONE validator of that hub in its trust root; then an IBTP relayed from 9999:c5:s1 comes with the
+            # signature of that one validator.  It is judged by the four registered validators of BitXHub 9999 (one signature is not
+            # more than (4-1)/3), not by the local record that happens to share the name
+            g.ops.append("block xfer adm0 ca5 100000000000")
+            g.ops.append("propose ca5")
+            g.ops.append(f"block bvm ca5 appchain RegisterAppchain s:c5 s:name-c5 x: s:ETH trust:1 s:0xbroker s:desc s:{RULES['happy']} s:url s:@ca5 s:reason")
+            g.ops.append("q prop @ca5-0")
+            for v in ("adm0", "adm1", "adm2"):
+                g.ops.append(f"block bvm {v} gov Vote s:@ca5-0 s:approve s:r")
+            g.ops.append("q prop @ca5-0")
+            g.ops.append("q obj appchain c5")
+            idx = g.hub_next.get(("9999:c5:s1", "c1:s1"), 1)
+            g.ops.append("q dump")
+            g.ops.append(f"block ibtp ca9 9999:c5:s1 c1:s1 {idx} req 0 - msig1")
+            g.ops.append("q dump")
+            g.ops.append("q ic 9999:c5:s1")
+            tags.add("local-chain-named-like-a-foreign-chain-segment")
         for _b in range(r.randint(4, 10)):
             k = r.random()
             if k < 0.3:
